@@ -363,6 +363,26 @@ class WebSocketTemporaryRingBuffer(object):
         self.buf = self.buf[n:]
         return data
 
+    def hasFrame(self):
+        """ return True if the buffer starts with a complete frame """
+        size = 2
+        if len(self.buf) < size:
+            return False
+        length = self.buf[1] & 0x7F
+        if length == 126:
+            size += 2
+            if len(self.buf) < size:
+                return False
+            length, = struct.unpack("!H", self.buf[2:4])
+        elif length == 127:
+            size += 8
+            if len(self.buf) < size:
+                return False
+            length, = struct.unpack("!Q", self.buf[2:10])
+        if self.buf[1] & 0x80:
+            size += 4
+        return len(self.buf) >= size + length
+
     def sendall(self, data):
         self.request.chunked = 0
         self.request.write(data)
@@ -413,19 +433,23 @@ class WebSocketTemporaryHandler(object):
     def __call__(self, data):
         self._buffer._push(data)
 
-        frame = self._readFrame()
+        # a TCP read can end inside a frame or contain several frames:
+        # handle every frame that is complete, keep the remainder buffered
+        while self._buffer.hasFrame():
 
-        if not frame.flags.mask:
-            raise Exception("client mask bit not set")
+            frame = self._readFrame()
 
-        if frame.flags.opcode == WebSocketOpCode.Text:
-            frame.payload = frame.payload.decode("utf-8")
+            if not frame.flags.mask:
+                raise Exception("client mask bit not set")
 
-        # TODO: catch and close?
-        self._endpt.callback(self, frame.flags.opcode, frame.payload)
+            if frame.flags.opcode == WebSocketOpCode.Text:
+                frame.payload = frame.payload.decode("utf-8")
 
-        if frame.flags.opcode == WebSocketOpCode.Close:
-            self.close()
+            # TODO: catch and close?
+            self._endpt.callback(self, frame.flags.opcode, frame.payload)
+
+            if frame.flags.opcode == WebSocketOpCode.Close:
+                self.close()
 
 def get(path):
     """decorator which registers a class method as a GET handler
